@@ -1,4 +1,4 @@
-import Proofs.Codec.WireMalleable
+import Proofs.Codec.WireCanon
 /-!
 # C16 (byte-level half) — one signed content, many byte strings
 
@@ -115,6 +115,24 @@ decoded content are the same bytes (hence have the same hash, and the replay gua
 theorem decode_canonical_unique (s : Schema) (b₁ b₂ : Bytes) (h₁ : Canonical s b₁) (h₂ : Canonical s b₂)
     (h : decodeMsg s b₁ = decodeMsg s b₂) : b₁ = b₂ :=
   decode_canonical_injective s b₁ b₂ h₁ h₂ h
+
+/-- **The encoder only produces canonical encodings**: for every schema with distinct field numbers
+and every well-shaped value (right constructor per field — what a Go struct always is) whose
+encoding fits a Go `int`.  Together with `decode_canonical_unique`: among the encoder's outputs,
+equal signed content means equal bytes. -/
+theorem encode_is_canonical (s : Schema) (vs : List Value) (hw : wfSchema s = true)
+    (hsh : shapedFields s vs = true) (hs : (encodeMsg s vs).length < 2 ^ 63) :
+    Canonical s (encodeMsg s vs) :=
+  Wire.encode_is_canonical s vs hw hsh (by simpa [two63] using hs)
+
+example : wfSchema stdTxSchema = true ∧ shapedFields stdTxSchema exTx = true := by decide
+
+/-- Equal content ⇒ equal bytes, for the encoder's outputs. -/
+theorem encoder_outputs_injective (s : Schema) (v₁ v₂ : List Value) (hw : wfSchema s = true)
+    (h₁ : shapedFields s v₁ = true) (h₂ : shapedFields s v₂ = true)
+    (s₁ : (encodeMsg s v₁).length < 2 ^ 63) (s₂ : (encodeMsg s v₂).length < 2 ^ 63)
+    (h : decodeMsg s (encodeMsg s v₁) = decodeMsg s (encodeMsg s v₂)) : encodeMsg s v₁ = encodeMsg s v₂ :=
+  decode_canonical_unique s _ _ (encode_is_canonical s v₁ hw h₁ s₁) (encode_is_canonical s v₂ hw h₂ s₂) h
 
 /-- Non-vacuity: the encoder's output for `exTx` is canonical, the re-encodings are not. -/
 theorem canonical_example : Canonical stdTxSchema (b₀.drop 1) ∧ ¬ Canonical stdTxSchema (unknownFieldAppended.drop 1) := by
